@@ -239,6 +239,7 @@ def generate(problems):
     body += "/-- bits per packed field -/\ndef W : Nat := %d\n" % W
     body += "def nstates : Nat := %d\n" % n
     body += "def ncomp : Nat := %d\n" % ncomp
+    body += "def cnstates : List Nat := [%s]\n" % ", ".join(str(d["n"]) for d in J.dfas)
     body += "def nimg : Nat := %d\n" % nimg
     body += "def tagNames : List String := %s\n" % lean_str_list(tags)
     body += "def compNames : List String := %s\n" % lean_str_list(m["comp_names"])
@@ -256,17 +257,6 @@ def generate(problems):
     body += "def jtagL : Nat := %s\n" % hexlit(pack(m["tagL"], W))
     body += "def jtagD : Nat := %s\n" % hexlit(pack(m["tagD"], W))
     body += "/-- image-language membership, nimg bits per state -/\ndef jimg : Nat := %s\n" % hexlit(pack(m["img"], nimg))
-    # product structure (thorough-tier certificate that J is the product of the component DFAs)
-    body += "/-- first-character class of each joint state (K = none yet) -/\ndef jfirst : Nat := %s\n" % hexlit(
-        pack([K if f is None else f for f, _ in J.states], W))
-    body += "/-- component states of each joint state, blocked like jdelta: block j/BS, field (j%%BS)*ncomp + i -/\ndef jcomp : List Nat := [%s]\n" % ", ".join(
-        hexlit(pack([q for _, qs in J.states[b0:b0 + BS] for q in qs], W)) for b0 in range(0, n, BS))
-    body += "def cnstates : List Nat := [%s]\n" % ", ".join(str(d["n"]) for d in J.dfas)
-    body += "/-- per component: transition table, field q*K + c -/\ndef cdelta : List Nat := [%s]\n" % ", ".join(
-        hexlit(pack([t for row in d["delta"] for t in row], W)) for d in J.dfas)
-    body += "/-- per component: accepting-state bit set -/\ndef cacc : List Nat := [%s]\n" % ", ".join(
-        hexlit(pack([1 if a else 0 for a in d["acc"]], 1)) for d in J.dfas)
-
     def lists_lean(side):
         rows = []
         for ch, lst in sorted(m["lists"][side].items(), key=lambda kv: (-1 if kv[0] is None else (-2 if kv[0] == "" else ord(kv[0])))):
